@@ -33,7 +33,7 @@ fn si(a: &[&str]) -> String {
 use quantities::Rate;
 
 #[cfg(feature = "g_rate")]
-fn rate_fields<TQ: Quantity, PQ: Quantity>(r: &Rate<TQ, PQ>) -> String {
+fn rate_fields<TQ: Quantity<UnitType: 'static>, PQ: Quantity<UnitType: 'static>>(r: &Rate<TQ, PQ>) -> String {
     format!(
         "{} {} {} {}",
         enc(r.term_amount()),
@@ -54,8 +54,8 @@ pub fn rate_ops<TQ, PQ>(
     q_mul_recip: Option<fn(TQ, Rate<PQ, TQ>) -> PQ>,
 ) -> String
 where
-    TQ: Quantity + Div<TQ, Output = AmountT>,
-    PQ: Quantity + Div<PQ, Output = AmountT>,
+    TQ: Quantity<UnitType: 'static> + Div<TQ, Output = AmountT>,
+    PQ: Quantity<UnitType: 'static> + Div<PQ, Output = AmountT>,
 {
     let ta = dec_amt(a[0]);
     let tu = unit_at::<TQ::UnitType>(a[1].parse().unwrap());
@@ -121,7 +121,7 @@ use quantities::{ConversionTable, Converter};
 
 #[cfg(feature = "g_tconv")]
 /// rows: `from:to:factor:offset;...` (or `-` for the empty table)
-pub fn tconv_ops<Q: Quantity>(a: &[&str]) -> String
+pub fn tconv_ops<Q: Quantity<UnitType: 'static>>(a: &[&str]) -> String
 where
     Q::UnitType: std::fmt::Debug,
 {
@@ -158,7 +158,7 @@ where
     with_n!(0, 1, 2, 3, 4, 5, 6, 7, 8, 9, 10, 11, 12)
 }
 
-pub fn opt_q<Q: Quantity>(r: Option<Q>) -> String {
+pub fn opt_q<Q: Quantity<UnitType: 'static>>(r: Option<Q>) -> String {
     match r {
         Some(q) => format!("some {}", qstr(q)),
         None => "none".into(),
